@@ -72,7 +72,7 @@ pub fn any_text(rng: &mut Rng) -> String {
     text(rng, fl, paras, 8)
 }
 
-pub const INDENTS: &[&str] = &["", "", " ", "> ", "👉", "    ", "\x1b[1m>\x1b[0m", "-", "ＨＨ", "          "];
+pub const INDENTS: &[&str] = &["", "", " ", "> ", "👉", "    ", "\x1b[1m>\x1b[0m", "-", "ＨＨ", "          ", "\x1b[34m", "\u{200b}", "\u{301}", "\t"];
 
 pub fn indent(rng: &mut Rng) -> String {
     rng.pick(INDENTS).to_string()
